@@ -243,7 +243,18 @@ def check_case(ctx, v):
 def reuse_cases(E):
     return st.fixed_dictionaries(dict(
         atoms=c14.sample_atoms(E), mass=c14.logu(1e-3, 1e3), steps=c14.reuse_steps(bright=True),
-        first=st.sampled_from(["NIST", "IAEA"]), ks=st.lists(target_factor(), min_size=2, max_size=2)))
+        first=st.sampled_from(["NIST", "IAEA"]), ks=st.lists(target_factor(), min_size=2, max_size=2),
+        clone=st.one_of(st.none(), st.tuples(st.sampled_from(["copy", "deepcopy", "pickle"]), st.booleans()).map(list))))
+
+
+def _clone(how, sample):
+    import copy
+    import pickle
+    if how == "copy":
+        return copy.copy(sample)
+    if how == "deepcopy":
+        return copy.deepcopy(sample)
+    return pickle.loads(pickle.dumps(sample))
 
 
 def same_outcome(a, b):
@@ -279,6 +290,7 @@ def check_reuse(ctx, v):
     ctx.case(("reuse", formula, mass, repr(steps), v["first"], tuple(ks)), nontrivial=True,
              sample={"formula": formula, "steps": steps, "ks": ks}, cls=["reuse:steps:%d" % len(steps)])
     previous = []
+    clone, recorded = None, []       # a copy of the sample taken after the previous step, and what it answered then
     for i in range(len(steps)):
         envd = c14.step_env(steps, i, mass)
         which = v["first"] if i % 2 == 0 else c14.other(v["first"])
@@ -304,6 +316,28 @@ def check_reuse(ctx, v):
         except Exception as e:  # noqa
             raise Violation("c15:reuse:sample-state", "%s %s: calculate_activation on the reused sample raised %s: %s"
                             % (formula, where, type(e).__name__, str(e)[:120]), case)
+        # a copy of the sample (copy.copy / deepcopy / pickle round trip) taken after the previous step is a sample in
+        # its own right: the original's new calculation must not change what the copy answers, and a new calculation
+        # on the copy must not change what the original answers (judged below against a fresh sample and the truth)
+        if clone is not None:
+            how, recalc = v["clone"]
+            if recalc:
+                try:
+                    clone.calculate_activation(environment, exposure=envd["exposure"] * 3, rest_times=[0.0, 2.0],
+                                               abundance=abundance)
+                except Exception as e:  # noqa
+                    raise Violation("c15:clone:raises", "%s %s: calculate_activation on a %s of the sample raised %s: %s"
+                                    % (formula, where, how, type(e).__name__, str(e)[:120]), case)
+                ctx.count("reuse:clone-recalculated:" + how)
+            else:
+                for target, o_then in recorded:
+                    o_now = outcome(clone, target)
+                    if not same_outcome(o_now, o_then):
+                        raise Violation("c15:clone:changed-by-original",
+                                        "%s %s: a %s of the sample taken after the previous step answered decay_time(%r) = %r "
+                                        "then and %r after the ORIGINAL was recalculated" % (formula, where, how, target,
+                                                                                             o_then[1:], o_now[1:]), case)
+                ctx.count("reuse:clone-asked-again:" + how)
         products = [(vals[0], ai.Thalf_hrs) for ai, vals in base.activity.items()]
         zero = [a for a, T in products if a <= 0]
         A0 = ra.total_activity(products, 0.0) if products else D(0)
@@ -346,6 +380,18 @@ def check_reuse(ctx, v):
             raise Violation("c15:reuse:environment-modified", "%s %s: the ActivationEnvironment changed from %r to %r"
                             % (formula, where, snap, dict(vars(environment))), case)
         previous = targets
+        if v.get("clone"):
+            try:
+                clone = _clone(v["clone"][0], reused)
+            except Exception as e:  # noqa
+                raise Violation("c15:clone:raises", "%s %s: %s of the sample raised %s: %s"
+                                % (formula, where, v["clone"][0], type(e).__name__, str(e)[:120]), case)
+            recorded = [(t, outcome(reused, t)) for _, t in targets]
+            for target, o_then in recorded:
+                o_c = outcome(clone, target)
+                if not same_outcome(o_c, o_then):
+                    raise Violation("c15:clone:differs", "%s %s: a %s of the sample answers decay_time(%r) = %r, the sample %r"
+                                    % (formula, where, v["clone"][0], target, o_c[1:], o_then[1:]), case)
 
 
 def task_reuse(ctx, n):
